@@ -75,3 +75,20 @@ CLAIMS["C12"] = {
             "(property, [i], key()/value()/item() segments; last segment may be a missing property) and `received` must be identical to what is found there; printErrors and the parse() message are rendered twice and must not throw or differ.",
     "note": "The resolver is reference-free (it only reads the input). Ambiguous segments (a property literally named '[0]') are resolved in every possible way and accepted if one fits. A2/A1 as everywhere.",
 }
+
+# ------------------------------------------------------------------------------------------ C04
+SPEC["C04"] = {
+    "engine": "node",
+    "rule": "cases = compile requests: grammar-generated programs over the whole TypeScript type syntax (supported or not), token-level mutations of the repository's own test corpus, "
+            "multi-file projects with missing/cyclic/looping imports, random format settings and registration orders, plus supported programs from the C01 generator. "
+            "distinct_nontrivial = distinct (diagnostic variant, located?) kinds observed + distinct success shapes (stream, #parsers, #files, has references)",
+    "floor": {"quick": 3000, "thorough": 100000},
+    "watchdog_s": {"quick": 1500, "thorough": 10800},
+}
+CLAIMS["C04"] = {
+    "technique": "fault monitors around the real compiler (catch_unwind + panic-location hook, per-thread CPU-time watchdog, worker-death detection with gdb stack naming) + range checker of every diagnostic against the file text + load / reference-closure walk of every success",
+    "text": "Every request runs extract+emit_code on a fresh 64 MB-stack thread under catch_unwind; a panic, a killed worker, >20 s CPU (re-checked alone with 60 s), an emit error without diagnostic, "
+            "a diagnostic whose file/line/column is not inside the project text, an unlocated diagnostic for a file that parses, a module that does not load, a missing parser or a dangling RefRuntype is a violation. "
+            "Totality is approximated by absence of failures on ~1.2e4 (quick) / 6e5 (thorough) hostile programs; the evidence lists the diagnostic kinds and outcomes actually observed.",
+    "note": "Bounded progress only (20 s / 60 s CPU). Nesting depth of generated input is small, so a stack overflow can only come from unbounded recursion. Native build stands for wasm (A1); module loading through the cjs-style assembly, ESM import for a sample.",
+}
